@@ -80,3 +80,60 @@ theorem restart_idempotent (s : Node) (sc : Nat) (dump : Option (NodeSend.Entry 
     rfl
 
 end PSO.Bridge
+
+namespace PSO.Bridge
+open PSO.NodeSend
+
+/-! ## `DumpHeld` is kept by what a running node does to its journal behind the dump
+
+`restart_refines` needs `DumpHeld` at the moment of the kill.  It holds when the node's own compaction writes the dump
+(the dump's entries ARE `__getEntries(lastApplied - 1, 2)` of that journal) and the following lemmas carry it along:
+appending entries and cutting a conflicting suffix that starts behind the dump's second entry do not disturb it. -/
+
+theorem dumpHeld_of_getEntries (log : List NodeSend.Entry) (k : Nat) (p l : NodeSend.Entry)
+    (h : getEntries log (some k) (some 2) none = some [p, l]) (hk : p.idx = k) : DumpHeld log p l := by
+  unfold DumpHeld; rw [hk]; exact h
+
+theorem dumpHeld_append (log es : List NodeSend.Entry) (p l : NodeSend.Entry) (h : DumpHeld log p l) :
+    DumpHeld (log ++ es) p l := by
+  unfold DumpHeld at *
+  cases hl : log with
+  | nil => rw [hl] at h; simp [getEntries] at h
+  | cons e0 t =>
+    rw [hl] at h
+    simp only [getEntries, List.cons_append] at h ⊢
+    by_cases hlt : p.idx < e0.idx
+    · simp [hlt] at h
+    · simp only [if_neg hlt, Option.some.injEq] at h ⊢
+      obtain ⟨rest, hrest⟩ := take2_eq h
+      have hlen : p.idx - e0.idx ≤ (e0 :: t).length := by
+        by_contra hc
+        have : List.drop (p.idx - e0.idx) (e0 :: t) = [] := List.drop_eq_nil_of_le (by omega)
+        rw [this] at hrest; cases hrest
+      have : List.drop (p.idx - e0.idx) (e0 :: (t ++ es)) = List.drop (p.idx - e0.idx) (e0 :: t) ++ es := by
+        rw [← List.cons_append, List.drop_append_of_le_length hlen]
+      rw [this, hrest]
+      rfl
+
+theorem dumpHeld_take (log : List NodeSend.Entry) (m : Nat) (p l : NodeSend.Entry) (h : DumpHeld log p l)
+    (e0 : NodeSend.Entry) (he0 : log.head? = some e0) (hm : p.idx - e0.idx + 2 ≤ m) :
+    DumpHeld (log.take m) p l := by
+  unfold DumpHeld at *
+  cases hl : log with
+  | nil => rw [hl] at he0; cases he0
+  | cons a t =>
+    rw [hl] at h he0
+    simp only [List.head?_cons, Option.some.injEq] at he0
+    subst he0
+    have hm1 : m = (m - 1) + 1 := by omega
+    rw [hm1, List.take_succ_cons]
+    simp only [getEntries] at h ⊢
+    by_cases hlt : p.idx < a.idx
+    · simp [hlt] at h
+    · simp only [if_neg hlt, Option.some.injEq] at h ⊢
+      rw [← List.take_succ_cons, ← hm1, List.drop_take]
+      rw [List.take_take]
+      have : min 2 (m - (p.idx - a.idx)) = 2 := by omega
+      rw [this]; exact h
+
+end PSO.Bridge
